@@ -332,3 +332,34 @@ Proof. repeat split; reflexivity. Qed.
 
 Example ex_necessary : In 35 (35 :: whitelist) /\ 35 <> 0 /\ sh_meta 35 = true.
 Proof. split; [left; reflexivity|]. split; [discriminate | reflexivity]. Qed.
+
+(* ====================================================================================================== *)
+(* EXPORTED LEMMAS (all closed under the global context; restated in Props/Properties_c17lex.v)
+
+     shell_roundtrip               : forall wl p, whitelist_ok wl = true -> p <> [] -> ~ In 0 p ->
+                                     sh_words (shell_escaped_gen wl p) = Some [p]
+     shell_roundtrip_current       : forall p, p <> [] -> ~ In 0 p -> sh_words (shell_escaped p) = Some [p]
+     shell_roundtrip_probed        : whitelist_same pw whitelist = true -> p <> [] -> ~ In 0 p ->
+                                     shell_escaped_gen pw p = shell_escaped p /\ sh_words (shell_escaped_gen pw p) = Some [p]
+     shell_escaped_safe_chars      : forall wl p, shell_escaped_gen wl p = p <-> forallb (fun b => mem_byte b wl) p = true
+     shell_escaped_quoted          : forallb (fun b => mem_byte b wl) p = false -> exists mid, shell_escaped_gen wl p = 39 :: mid ++ [39]
+     shell_escaped_gen_ext         : whitelist_same wl1 wl2 = true -> forall s, shell_escaped_gen wl1 s = shell_escaped_gen wl2 s
+     whitelist_is_ok               : whitelist_ok whitelist = true
+
+   Side conditions, each justified by a counter-example (REFUTED without it):
+     p <> []         shell_roundtrip_empty_refuted : exists p, p = [] /\ sh_words (shell_escaped p) = Some [] /\ ... <> Some [p]
+                     (shellEscaped of the empty string is the empty string: sh sees no word; the caller would need two quotes)
+     ~ In 0 p        shell_roundtrip_nul_refuted   : exists p, In 0 p /\ sh_words (shell_escaped p) = None
+                     (a NUL ends the C string handed to sh -c; not a defect of the function)
+     whitelist_ok    whitelist_with_hash_refuted   : with 35 in the whitelist the path 35 120 is emitted unquoted and
+                                                     sh_words of it = Some []  (a comment: the state before the repair)
+                     whitelist_with_tilde_refuted  : with 126 in the whitelist the path 126 120 is emitted unquoted: tilde expansion
+                     whitelist_ok_necessary        : forall wl b, In b wl -> b <> 0 -> sh_meta b = true ->
+                                                     shell_escaped_gen wl [b] = [b] /\ sh_words (shell_escaped_gen wl [b]) <> Some [[b]]
+   The metacharacters (sh_meta): special anywhere in a word  | & ; < > ( ) $ ` \ double-quote single-quote space tab
+   newline * ? [ NUL ; special only where a word starts  # ~ .  The characters = and % are literal in argument position
+   (= is special only before the command name; % only to job-control built-ins), they may be whitelisted and are
+   (equals_percent_literal).
+   Table side conditions (vm_compute in the property file, over coq/gen/Gen_ShellWhitelist.v):
+     whitelist_ok probed_whitelist, whitelist_same probed_whitelist whitelist,
+     map (fun b => shell_escaped [b]) all_bytes = probed_shell_single. *)
